@@ -678,10 +678,13 @@ func (r *Run) asTerm(v Val) (Term, bool) {
 	case VFunc:
 		name := "fn." + sanitize(v.Fn.String())
 		if len(v.Bind) > 0 {
-			// closures are distinct objects; an opaque fresh ref is enough
-			return r.ctx.Fresh("closure", SInt), true
+			// closures are distinct objects; an opaque fresh non-nil ref is enough
+			c := r.ctx.Fresh("closure", SInt)
+			r.ctx.Assert(Gt(c, mkInt(0)))
+			return c, true
 		}
 		r.ctx.DeclareOnce(name, fmt.Sprintf("(declare-const %s Int)", name))
+		r.ctx.DeclareOnce(name+"!pos", fmt.Sprintf("(assert (> %s 0))", name))
 		return Term{name, SInt}, true
 	}
 	return Term{}, false
